@@ -292,6 +292,8 @@ func c12Generate(env verifEnv) []*c12Case {
 	add("W/reset-after-unsupported-welcome", 1, false, []c12Op{{K: "recvfail", M: &c12Shape{Tag: "welcome", Id: "other", Wel: "nofed"}}, {K: "expire"}})
 	add("W/reset-after-hello-error", 1, false, []c12Op{c12Recv(c12WelcomeOk()), {K: "recvfail", M: &c12Shape{Tag: "error", Id: "cur", Err: "oc"}}, {K: "expire"}})
 	add("W/reset-during-join", 1, false, []c12Op{c12Recv(c12WelcomeOk()), {K: "recvfail", M: c12HelloOk(true, true)}, {K: "accept"}, {K: "expire"}})
+	add("W/reset-during-resuming-hello", 1, false, cat(c12Prefix("S3", true), c12Op{K: "drop", N: 1}, c12Op{K: "accept"}, c12Recv(c12WelcomeOk()),
+		c12Op{K: "recvfail", M: wrong}, c12Op{K: "accept"}, c12Recv(c12WelcomeOk()), c12Recv(c12HelloOk(true, true))))
 	add("W/reset-during-close-on-leave", 1, true, cat(c12Prefix("S3", true), c12Op{K: "cleave"}, c12Op{K: "recvfail", M: &c12Shape{Tag: "room", Id: "other", Room: "empty"}}, c12Op{K: "expire"}))
 
 	// -- drops between any two messages of the normal sequence --------------------
@@ -451,6 +453,23 @@ func c12Generate(env verifEnv) []*c12Case {
 			ops = append(ops, c12Op{K: "expire"})
 		}
 		add("F/"+stage, 1, rr.chance(50), ops)
+	}
+	// stress (a test, not a proof; judged by P_C12 only): answers with unknown ids and a
+	// reset while the federated session sends requests, at the two hello stages
+	n = 6
+	if thorough {
+		n = 150
+	}
+	for i := 0; i < n; i++ {
+		rr := newVrng(env.seed, uint64(200000+i))
+		var ops []c12Op
+		if i%2 == 0 {
+			ops = c12Prefix("S1", true)
+		} else {
+			ops = cat(c12Prefix("S3", true), c12Op{K: "drop", N: rr.intn(3)}, c12Op{K: "accept"}, c12Recv(c12WelcomeOk()))
+		}
+		ops = append(ops, c12Op{K: "storm", N: 5 + rr.intn(30)}, c12Op{K: "accept"}, c12Recv(c12WelcomeOk()), c12Recv(c12HelloOk(true, true)), c12Op{K: "expire"})
+		add("X/storm", 2, rr.chance(50), ops)
 	}
 	return cases
 }
